@@ -50,7 +50,7 @@ func TestVerifFallbackCheckpointSave(t *testing.T) {
 		}
 		s.anyDirtyOffset = any && r.Intn(8) != 0 || (!any && r.Intn(8) == 0)
 		flag := s.anyDirtyOffset
-		mode := r.Intn(3) // 0 ok, 1 fail, 2 ack during the store
+		mode := r.Intn(4) // 0 ok, 1 fail, 2 ack during the store, 3 a library document (the save's own feedback) during the store
 		ackVb := ids[r.Intn(n)]
 		md.onSave = func() error {
 			switch mode {
@@ -59,6 +59,9 @@ func TestVerifFallbackCheckpointSave(t *testing.T) {
 			case 2:
 				cur, _ := s.offsets.Load(ackVb)
 				s.setOffset(ackVb, &models.Offset{SnapshotMarker: cur.SnapshotMarker, VbUUID: cur.VbUUID, SeqNo: cur.SeqNo + 1}, true)
+			case 3:
+				cur, _ := s.offsets.Load(ackVb)
+				s.setOffset(ackVb, &models.Offset{SnapshotMarker: cur.SnapshotMarker, VbUUID: cur.VbUUID, SeqNo: cur.SeqNo + 1}, false)
 			}
 			return nil
 		}
@@ -93,6 +96,17 @@ func TestVerifFallbackCheckpointSave(t *testing.T) {
 				t.Fatalf("VIOLATION C05: acknowledgement on vb %d during the store was forgotten (mark=%v flag=%v)", vb, still, s.anyDirtyOffset)
 			case mode == 0 && still:
 				t.Fatalf("VIOLATION C05: vb %d still dirty after it was stored at its current position", vb)
+			case mode == 3 && still:
+				t.Fatalf("VIOLATION C14: vb %d still flagged after a save during which only a library document arrived", vb)
+			}
+		}
+		if mode == 0 || mode == 3 {
+			// nothing was acknowledged since: the stream is clean and the next save writes nothing
+			md.onSave = nil
+			md.calls = 0
+			s.checkpoint.Save()
+			if md.calls != 0 || s.anyDirtyOffset {
+				t.Fatalf("VIOLATION C14: a save followed by no acknowledgement (mode %d) is followed by another write (%d store calls, flag=%v)", mode, md.calls, s.anyDirtyOffset)
 			}
 		}
 		if mode == 2 {
